@@ -169,3 +169,80 @@ func (fc *FnCtx) immutableGlobalFacts(key string, g *ssa.Global) {
 		fc.note("package variable " + g.String() + " is never reassigned and initialised by " + f.FullName() + ": non-nil")
 	}
 }
+
+// CallersCheck: //@ callers [props] FUNC: F1, F2  — every use of FUNC (static call, or taking its
+// value) in the loaded non-test snapd code is inside one of the listed functions of the package.
+// A syntactic obligation: it is how "handlers only start from run, run is only called from
+// Ensure" is pinned.
+func (e *Engine) CallersCheck(cc *ConstCheck) (name string, ok bool, detail string) {
+	text := cc.Clause.Text
+	i := strings.LastIndex(text, ":")
+	if i < 0 {
+		return text, false, "malformed callers clause"
+	}
+	target := strings.TrimSpace(text[:i])
+	allowed := map[string]bool{}
+	for _, a := range strings.Split(text[i+1:], ",") {
+		if a = strings.TrimSpace(a); a != "" {
+			allowed[a] = true
+		}
+	}
+	name = strings.TrimPrefix(cc.Pkg, snapdMod+"/") + "." + target + "#callers"
+	var tfn *ssa.Function
+	for _, con := range []*Contract{{Key: target, Pkg: cc.Pkg}} {
+		tfn = e.FindFunc(con)
+	}
+	if tfn == nil {
+		return name, false, "function " + target + " not found"
+	}
+	var bad []string
+	for _, p := range e.prog.AllPackages() {
+		if !strings.HasPrefix(p.Pkg.Path(), snapdMod) {
+			continue
+		}
+		seen := map[*ssa.Function]bool{}
+		var visit func(fn *ssa.Function)
+		visit = func(fn *ssa.Function) {
+			if fn == nil || seen[fn] {
+				return
+			}
+			seen[fn] = true
+			for _, b := range fn.Blocks {
+				for _, in := range b.Instrs {
+					for _, op := range in.Operands(nil) {
+						if f, isF := (*op).(*ssa.Function); isF && (f == tfn || f.Origin() == tfn) {
+							k := funcKey(fn)
+							root := fn
+							for root.Parent() != nil {
+								root = root.Parent()
+							}
+							if !(fn.Pkg == tfn.Pkg && (allowed[k] || allowed[funcKey(root)])) {
+								bad = append(bad, e.shortFn(fn))
+							}
+						}
+					}
+				}
+			}
+			for _, a := range fn.AnonFuncs {
+				visit(a)
+			}
+		}
+		for _, m := range p.Members {
+			switch m := m.(type) {
+			case *ssa.Function:
+				visit(m)
+			case *ssa.Type:
+				for _, t := range []types.Type{m.Type(), types.NewPointer(m.Type())} {
+					ms := e.prog.MethodSets.MethodSet(t)
+					for j := 0; j < ms.Len(); j++ {
+						visit(e.prog.MethodValue(ms.At(j)))
+					}
+				}
+			}
+		}
+	}
+	if len(bad) > 0 {
+		return name, false, "also used in " + strings.Join(bad, ", ")
+	}
+	return name, true, ""
+}
